@@ -22,7 +22,7 @@ def check_call(sizer, dh, equity, lev, rate, ws, ps):
     assets = ASSETS[:n]
     dh.ask = {a: float(fw(p)) for a, p in zip(assets, ps)}
     weights = {a: float(fw(w)) for a, w in zip(assets, ws)}
-    case = {'kind': 'size', 'equity': equity, 'leverage': lev, 'rate': rate, 'weights': list(ws), 'asks': list(ps)}
+    case = {'kind': 'size', 'equity': str(equity), 'leverage': lev, 'rate': rate, 'weights': list(ws), 'asks': list(ps)}
     try:
         got = sizer(DT, dict(weights))
     except Exception as e:  # noqa
@@ -79,8 +79,23 @@ def group(item):
     broker = make_broker(equity, rate, dh)
     sizer = LongShortLeveragedOrderSizer(broker, 'p', dh, gross_leverage=float(fw(lev)))
     viols, amb, n, outs, nz = [], 0, 0, set(), 0
-    for ws in itertools.product(WEIGHTS, repeat=len(ps)):
-        f, a, oc = check_call(sizer, dh, equity, lev, rate, ws, ps)
+    # phases as in C10: all weight vectors; quotes change at the same timestamp; a subset of the assets;
+    # half of the funds withdrawn - all on the one sizer / broker pair
+    ps2 = tuple(ASKS[(ASKS.index(x) + 1) % len(ASKS)] for x in ps)
+    plan = [(equity, ps, ws) for ws in itertools.product(WEIGHTS, repeat=len(ps))]
+    plan += [(equity, ps2, ws) for ws in itertools.product(WEIGHTS, repeat=len(ps))]
+    if len(ps) > 1:
+        plan += [(equity, ps[:-1], ws) for ws in itertools.product(WEIGHTS[2:6], repeat=len(ps) - 1)]
+    half = fw(equity) / 2
+    plan += [('half', ps, ws) for ws in itertools.product(WEIGHTS[1:6:2], repeat=len(ps))]
+    withdrawn = False
+    for eq, prices, ws in plan:
+        if eq == 'half':
+            if not withdrawn:
+                broker.withdraw_funds_from_portfolio('p', float(half))
+                withdrawn = True
+            eq = half
+        f, a, oc = check_call(sizer, dh, eq, lev, rate, ws, prices)
         n += 1
         amb += a
         viols += f
